@@ -31,6 +31,11 @@ if rnd >= 3:
     extra += f"""
 For this round ({rnd}), look where the earlier rounds did not: (a) the CIPHERSUITE CRATES' OWN code rather than frost-core - their `Ciphersuite` / `Group` / `Field` implementations (hash-to-scalar functions, element and scalar (de)serialisation, identity / cofactor handling, the Taproot crate's pre_sign / pre_aggregate / pre_verify / post_dkg hooks and tweak helpers) and their thin wrapper functions in `frost-*/src/keys/*.rs`, `src/lib.rs` (`round1`, `round2`, `aggregate`, `keys::dkg`, `keys::refresh`, `keys::repairable`), which the generic tests in frost-core mostly bypass; (b) frost-rerandomized and its interaction with the rest; (c) behaviour that exists only in a build WITHOUT debug assertions / overflow checks, or only with / without a cargo feature (`serde`, `serialization`, `cheater-detection`, `internals`); (d) dependence on particular VALUES rather than sizes (a zero or one scalar, the identity or the generator as a point, an identifier equal to another value in the computation, a message that is empty or equals a domain-separation string, high bit set in an encoding, equal hiding and binding nonces, two participants with related shares); (e) what an ERROR names or returns (culprit identifiers, error variants), and what state is left behind after a failed call (can the caller retry?); (f) anything that differs between the FIRST and LATER calls on the same object or between calls in a different ORDER. No change of this round may be guarded by a size threshold (more than N of something).
 """
+if rnd >= 4:
+    extra = extra.replace("No change of this round may be guarded by a size threshold (more than N of something).", "")
+    extra += f"""
+Additional guidance for round {rnd}: earlier rounds have used up the obvious sites, size thresholds, build profiles (debug assertions) and cargo features - do NOT use a build profile, a cargo feature or a size threshold as the trigger this time. Go for what is left: (1) the LESS CENTRAL clauses of the property statement (read every sentence of it; pick a clause none of the existing changes attacks); (2) TWO-SITE changes where each edit is harmless alone; (3) behaviour that depends on a particular COMBINATION of parameters (t = 2, t = n, n = 2, exactly t signers versus more, the lowest or the highest identifier, identifiers that are neighbours, a participant that is both helper and signer, the coordinator also being a participant); (4) REPEATED or RE-ORDERED use of the API (the same object used twice, calling part2 twice, refreshing twice in a row, repairing then refreshing then repairing, signing two sessions with interleaved rounds, aggregating the same shares twice); (5) EQUAL or RELATED inputs (two participants with the same commitment, the same message in two sessions, a share equal to another share, a key equal to a nonce); (6) the contents of SUCCESSFUL outputs that nobody reads in the tests (recorded threshold, recorded identifier, the verifying shares inside a package, the header of an encoded value, what getters return after a state change). Prefer silent wrong results over errors or panics.
+"""
 marker = "## Deliverables"
 i = t.index(marker)
 t = t[:i] + extra.lstrip("\n") + "\n" + t[i:]
